@@ -130,3 +130,8 @@ package dns
 //@ func fromBase64 [C08]
 //@   callsite "DecodedLen" std: arg0 == base64.StdEncoding
 //@   callsite "Decode" stddec: arg0 == base64.StdEncoding
+
+// RFC 9460 7.3: an ipv4hint value is four octets per address, whatever form the address is stored in
+//@ func (*SVCBIPv4Hint).pack [C01 C08]
+//@   ensures four: ret1 == nil ==> len(ret0) == 4 * len(s.Hint)
+//@   loop 1 invariant len(b) == 4 * (rangeindex + 1) && -1 <= rangeindex && rangeindex < len(s.Hint)
